@@ -398,10 +398,11 @@ class DynGraph(nx.Graph):
             else:
                 if t[0] <= max_end < t[1]:
                     app[-1][1] = t[1]
-                    if max_end + 1 in self.time_to_edge:
-                        if self.edge_removal:
-                            del self.time_to_edge[max_end + 1][(u, v, "-")]
-                        del self.time_to_edge[t[0]][(u, v, "+")]
+                    # the interval is extended: its old closing event and the '+' inserted
+                    # above (unless it is the one opening the interval) are dropped
+                    self.time_to_edge.get(max_end + 1, {}).pop((u, v, "-"), None)
+                    if t[0] != app[-1][0]:
+                        self.time_to_edge.get(t[0], {}).pop((u, v, "+"), None)
 
                 elif max_end == t[0] - 1:
                     if max_end + 1 in self.time_to_edge and (u, v, "+") in self.time_to_edge[max_end + 1]:
